@@ -190,7 +190,7 @@ M.contract('xtuml.meta.unrelate', [('from_instance', INST), ('to_instance', INST
            modifies=RELREP)
 
 M.lemma('C02.lemma.unrelate_exactly_undoes_relate',
-        [('from_instance', INST), ('to_instance', INST), ('rel_id', VAL), ('phrase', STR)], lets=REL_LETS,
+        [('from_instance', INST), ('to_instance', INST), ('rel_id', VAL), ('phrase', STR)], lets=REL_LETS, tiers=('thorough',),
         requires=dict(REL_REQ, **{'both': 'both(from_instance, to_instance)',
                                   'link-exists': 'any_match(mm(from_instance), from_instance, to_instance, norm_rel(rel_id), phrase)',
                                   'not-yet-related': 'f[1] not in partners(f[2].source_link, f[0])',
